@@ -523,6 +523,67 @@ async fn run_seq(idx: usize, c: Value) -> Value {
   json!({ "rows": rows })
 }
 
+
+// ------------------------------------------------------------------ repenv: REP answers a request that arrived with an envelope
+/// A DEALER with AUTO_DELIMITER off sends `request` (frames; MORE on all but the last), the REP receives it and answers with
+/// `reply` through send_multipart; everything the DEALER then receives is logged: one row [40, n, len0, more0, len1, more1, ..]
+/// per received message.  rows [41, code] = the REP's recv / send result.
+async fn run_repenv(idx: usize, c: Value) -> Value {
+  let mut rows: Vec<Vec<u64>> = Vec::new();
+  let ctx = match Context::new() {
+    Ok(c) => c,
+    Err(_) => return json!({"rows": [[99, 0]]}),
+  };
+  let tcp = c["transport"].as_str() == Some("tcp");
+  let rep = mk_socket(&ctx, "REP", None, 3000).await;
+  let dealer = mk_socket(&ctx, "DEALER", Some(b"D1"), 3000).await;
+  opt_i32(&dealer, AUTO_DELIMITER, 0).await;
+  let ep = match bind_any(&rep, tcp, &format!("re{idx}")).await {
+    Some(e) => e,
+    None => return json!({"rows": [[99, 1]]}),
+  };
+  if dealer.connect(&ep).await.is_err() {
+    return json!({"rows": [[99, 2]]});
+  }
+  tokio::time::sleep(Duration::from_millis(if tcp { 250 } else { 80 })).await;
+  let mk = |spec: &Value| -> Vec<Msg> {
+    let fs = spec.as_array().unwrap();
+    let n = fs.len();
+    fs.iter()
+      .enumerate()
+      .map(|(i, f)| {
+        let mut m = Msg::from_vec(bytes_of(f));
+        if i + 1 < n {
+          m.set_flags(MsgFlags::MORE);
+        }
+        m
+      })
+      .collect()
+  };
+  let sr = dealer.send_multipart(mk(&c["request"])).await;
+  rows.push(vec![41, if sr.is_ok() { 0 } else { 1 }]);
+  let rr = rep.recv_multipart().await;
+  rows.push(vec![41, if rr.is_ok() { 0 } else { 2 }]);
+  let ar = rep.send_multipart(mk(&c["reply"])).await;
+  rows.push(vec![41, if ar.is_ok() { 0 } else { 3 }]);
+  opt_i32(&dealer, RCVTIMEO, 500).await;
+  for _ in 0..4 {
+    match dealer.recv_multipart().await {
+      Ok(fr) => {
+        let mut r = vec![40, fr.len() as u64];
+        for f in fr.iter() {
+          r.push(f.data().map(|d| d.len()).unwrap_or(0) as u64);
+          r.push(if f.is_more() { 1 } else { 0 });
+        }
+        rows.push(r);
+      }
+      Err(_) => break,
+    }
+  }
+  teardown(ctx, vec![rep, dealer]).await;
+  json!({ "rows": rows })
+}
+
 // ------------------------------------------------------------------ stack: several senders, churn, big messages
 
 async fn run_stack(idx: usize, c: Value) -> Value {
@@ -747,6 +808,7 @@ fn run_socket_case(i: usize, c: &Value) -> Value {
     let h = match kind.as_str() {
       "seq" => tokio::spawn(run_seq(i, c2)),
       "fanout" => tokio::spawn(run_fanout(i, c2)),
+      "repenv" => tokio::spawn(run_repenv(i, c2)),
       _ => tokio::spawn(run_stack(i, c2)),
     };
     match tokio::time::timeout(Duration::from_secs(60), h).await {
@@ -773,7 +835,7 @@ pub fn run_all(cases: &[Value]) -> Vec<Value> {
       "fb" => out[i] = Some(run_fb(c)),
       "ing" => out[i] = Some(run_ing(c)),
       "coq" => out[i] = Some(json!({"rows": []})),
-      "seq" | "stack" | "fanout" => sock_idx.push(i),
+      "seq" | "stack" | "fanout" | "repenv" => sock_idx.push(i),
       other => panic!("unknown case kind {other}"),
     }
   }
